@@ -30,7 +30,7 @@ structure Inv (s : State) : Prop where
   ret_fin : s.bst = .final → s.ret = none
   /-- `_caller` is set exactly while the body is inside an access — or after `next_async` threw -/
   busy_iff : s.caller ≠ .none ↔ (midAccess s = true ∨ s.stuck = true)
-  stuck_fin : s.stuck = true → s.bst = .final ∧ s.exp = true ∧ s.caller = .awt
+  stuck_fin : s.stuck = true → s.bst = .final ∧ s.exp = true ∧ s.caller = .awt ∧ s.post ≠ []
   /-- whoever `_caller` designates is really waiting -/
   c_awt : s.caller = .awt → s.stuck = false → s.cons = .parked ∧ s.fut ≠ .pending
   c_int : s.caller = .internal →
@@ -50,6 +50,9 @@ structure Inv (s : State) : Prop where
   post_fin : s.post ≠ [] → s.bst = .final
   post_exc : s.exp = true → ∀ e ∈ s.post, e = .nomore
   await_unres : ∀ k, s.bst = .await k → k ∉ s.resolved
+  /-- the chronological log is the body's part followed by the answers given after the body had finished -/
+  seen_eq : s.seen = s.obs ++ s.post
+  sync_post : inSync s = true → s.post = []
 
 /-! ### normal forms: the derived notions as functions of the fields they read, so that `simp` sees through record updates -/
 
@@ -117,9 +120,12 @@ theorem inSyncC_true {c : Cons} : inSyncC c = true ↔ ∃ k, c = .inSync k := b
 set_option hygiene false in
 macro "inv_cases " h:ident : tactic => `(tactic|
   obtain ⟨noub, seq_run, seq_fin, flags_run, flags_fin, ret_yield, ret_fin, busy_iff, stuck_fin, c_awt, c_int, c_none,
-    reader_pending, arg_ok, guards, live_fin, live_dead, got_ok, post_end, post_fin, post_exc, await_unres⟩ := $h)
+    reader_pending, arg_ok, guards, live_fin, live_dead, got_ok, post_end, post_fin, post_exc, await_unres, seen_eq, sync_post⟩ := $h)
 
 /-- split the goal `Inv _` into its clauses and normalise each against the hypotheses -/
+macro "inv_dbg" : tactic => `(tactic|
+  (constructor <;> simp_all [pend_eq, inSync_eq, midAccess_eq, cur_eq, inflight_eq] <;> try assumption))
+
 macro "inv_close" : tactic => `(tactic|
   (constructor <;> simp_all [pend_eq, inSync_eq, midAccess_eq, cur_eq, inflight_eq] <;>
     first | assumption | grind | omega))
@@ -339,22 +345,22 @@ theorem idle_bst {s : State} (hm : midAccess s = false) (hf : s.bst ≠ .final) 
   rw [midAccess_eq] at hm
   cases hb : s.bst <;> simp_all
 
-theorem inv_post_fin {s : State} (h : Inv s) (hd : s.done = true) (e : List Ev) :
-    Inv { s with post := s.post ++ [.fin], evs := e } := by
+theorem inv_post_fin {s : State} (h : Inv s) (hns : inSync s = false) (hd : s.done = true) (e : List Ev) :
+    Inv { s with seen := s.seen ++ [.fin], post := s.post ++ [.fin], evs := e } := by
   have hf : s.bst = .final := by
     cases hb : s.bst <;> first | rfl | (have := (h.flags_run (by simp [hb])).1; simp [hd] at this)
   inv_cases h
   inv_close
 
-theorem inv_post_nomore {s : State} (h : Inv s) (hf : s.bst = .final) (hd : s.done = false) :
-    Inv { s with post := s.post ++ [.nomore] } := by
+theorem inv_post_nomore {s : State} (h : Inv s) (hns : inSync s = false) (hf : s.bst = .final) :
+    Inv { s with seen := s.seen ++ [.nomore], post := s.post ++ [.nomore] } := by
   inv_cases h
   inv_close
 
 /-- `next_async` on a generator that ended with an exception: `_caller` is stored, then `no_more_values` is thrown -/
-theorem inv_post_stuck {s : State} (h : Inv s) (hf : s.bst = .final) (hd : s.done = false) (hc : s.caller = .none)
+theorem inv_post_stuck {s : State} (h : Inv s) (hns : inSync s = false) (hf : s.bst = .final) (hd : s.done = false) (hc : s.caller = .none)
     (e : List Ev) :
-    Inv { s with caller := .awt, stuck := true, post := s.post ++ [.nomore], evs := e } := by
+    Inv { s with caller := .awt, stuck := true, seen := s.seen ++ [.nomore], post := s.post ++ [.nomore], evs := e } := by
   inv_cases h
   inv_close
 
@@ -367,17 +373,21 @@ theorem inv_post_stuck {s : State} (h : Inv s) (hf : s.bst = .final) (hd : s.don
 @[simp] theorem setArg_cons (s : State) (a : Nat) : (setArg s a).cons = s.cons := by
   unfold setArg; split <;> rfl
 
+set_option maxHeartbeats 800000 in
 theorem inv_setArg {s : State} (h : Inv s) (hm : midAccess s = false) (a : Nat) : Inv (setArg s a) := by
   unfold setArg
   inv_cases h
   split <;> inv_close
 
 /-- `next_sync` arms `_internal` for the blocking wait and resumes the body -/
-theorem inv_arm_sync {s : State} (h : Inv s) (hc : s.caller = .none) (hns : inSync s = false) (hf : s.bst ≠ .final)
+theorem inv_arm_sync {s : State} (h : Inv s) (hal : s.alive = true) (hc : s.caller = .none) (hns : inSync s = false) (hf : s.bst ≠ .final)
     (kind : SyncKind) (a : Nat) :
     Inv (resumeBody { setArg s a with block := false, caller := .internal, ifn := .sync, cons := .inSync kind }) := by
   obtain ⟨hm, hst, hcp, hfp⟩ := idle_facts h hc
   have hb := idle_bst hm hf
+  have hci : s.cons = .idle := by
+    rw [inSync_eq] at hns
+    cases hcs : s.cons <;> simp_all
   apply inv_resumeBody
   · unfold setArg
     inv_cases h
@@ -385,11 +395,14 @@ theorem inv_arm_sync {s : State} (h : Inv s) (hc : s.caller = .none) (hns : inSy
   · simpa using Or.elim hb Or.inl (fun h => Or.inr (Or.inl h))
 
 /-- `next_async` stores the consumer's awaiter and transfers into the body -/
-theorem inv_arm_awt {s : State} (h : Inv s) (hc : s.caller = .none) (hns : inSync s = false) (hf : s.bst ≠ .final)
+theorem inv_arm_awt {s : State} (h : Inv s) (hal : s.alive = true) (hc : s.caller = .none) (hns : inSync s = false) (hf : s.bst ≠ .final)
     (a : Nat) :
     Inv (resumeBody { setArg s a with caller := .awt, cons := .parked }) := by
   obtain ⟨hm, hst, hcp, hfp⟩ := idle_facts h hc
   have hb := idle_bst hm hf
+  have hci : s.cons = .idle := by
+    rw [inSync_eq] at hns
+    cases hcs : s.cons <;> simp_all
   apply inv_resumeBody
   · unfold setArg
     inv_cases h
@@ -397,7 +410,7 @@ theorem inv_arm_awt {s : State} (h : Inv s) (hc : s.caller = .none) (hns : inSyn
   · simpa using Or.elim hb Or.inl (fun h => Or.inr (Or.inl h))
 
 /-- `next_future` stores the promise, arms `_internal` and resumes the body -/
-theorem inv_arm_fut {s : State} (h : Inv s) (hc : s.caller = .none) (hns : inSync s = false) (hf : s.bst ≠ .final)
+theorem inv_arm_fut {s : State} (h : Inv s) (hal : s.alive = true) (hc : s.caller = .none) (hns : inSync s = false) (hf : s.bst ≠ .final)
     (a : Nat) :
     Inv (resumeBody { setArg s a with awaiting := true, caller := .internal, ifn := .future, fut := .pending }) := by
   obtain ⟨hm, hst, hcp, hfp⟩ := idle_facts h hc
@@ -410,5 +423,455 @@ theorem inv_arm_fut {s : State} (h : Inv s) (hc : s.caller = .none) (hns : inSyn
     inv_cases h
     split <;> inv_close
   · simpa using Or.elim hb Or.inl (fun h => Or.inr (Or.inl h))
+
+theorem inv_syncGo {s : State} (h : Inv s) (hal : s.alive = true) (hc : s.caller = .none) (hns : inSync s = false)
+    (kind : SyncKind) (a : Nat) : Inv (syncGo (setArg s a) kind).1 := by
+  obtain ⟨hm, hst, hcp, hfp⟩ := idle_facts h hc
+  have h1 := inv_setArg h hm a
+  unfold syncGo
+  split
+  · rename_i hd
+    exact inv_endSync (inv_post_fin h1 (by simpa [inSync_eq] using hns) hd _) kind false
+  · split
+    · rename_i hd hf
+      exact inv_post_nomore h1 (by simpa [inSync_eq] using hns) (by simpa using hf)
+    · rename_i hd hf
+      exact inv_arm_sync h hal hc hns (by simpa using hf) kind a
+
+theorem inv_stepSyncBegin {s : State} (h : Inv s) (kind : SyncKind) (a : Nat) : Inv (stepSyncBegin s kind a).1 := by
+  unfold stepSyncBegin
+  split
+  · exact h
+  · split
+    · exact h
+    · split
+      · exact h
+      · rename_i h1 h2 h3
+        exact inv_syncGo h (by simpa using h1) (by simpa using h3) (by simpa using h2) kind a
+
+theorem inv_stepSyncEnd {s : State} (h : Inv s) : Inv (stepSyncEnd s).1 := by
+  unfold stepSyncEnd
+  split
+  · rename_i kind hk
+    split
+    · rename_i hb
+      apply inv_endSync
+      have hm : midAccess s = false := by
+        cases hm : midAccess s with
+        | false => rfl
+        | true =>
+            have hcn : s.caller ≠ .none := h.busy_iff.mpr (Or.inl hm)
+            have hsf := h.stuck_fin
+            have hca := h.c_awt
+            have hci := h.c_int
+            rw [midAccess_eq] at hm
+            cases hc : s.caller <;> simp_all [inSync_eq] <;> grind [midB]
+      inv_cases h
+      inv_close
+    · exact h
+  · exact h
+
+theorem inv_stepValue {s : State} (h : Inv s) : Inv (stepValue s).1 := by
+  unfold stepValue
+  repeat (first | exact h | split)
+
+theorem inv_anextGo {s : State} (h : Inv s) (hal : s.alive = true) (hc : s.caller = .none) (hns : inSync s = false)
+    (a : Nat) : Inv (anextGo (setArg s a)).1 := by
+  obtain ⟨hm, hst, hcp, hfp⟩ := idle_facts h hc
+  have h1 := inv_setArg h hm a
+  unfold anextGo
+  split
+  · rename_i hd
+    exact inv_post_fin h1 (by simpa [inSync_eq] using hns) hd _
+  · split
+    · rename_i hd hf
+      exact inv_post_stuck h1 (by simpa [inSync_eq] using hns) (by simpa using hf) (by simpa using hd) (by simpa using hc) _
+    · rename_i hd hf
+      exact inv_arm_awt h hal hc hns (by simpa using hf) a
+
+theorem inv_stepAnext {s : State} (h : Inv s) (a : Nat) : Inv (stepAnext s a).1 := by
+  unfold stepAnext
+  split
+  · exact h
+  · split
+    · exact h
+    · split
+      · exact h
+      · rename_i h1 h2 h3
+        exact inv_anextGo h (by simpa using h1) (by simpa using h3) (by simpa using h2) a
+
+theorem inv_callGo {s : State} (h : Inv s) (hal : s.alive = true) (hc : s.caller = .none) (hns : inSync s = false)
+    (a : Nat) : Inv (callGo (setArg s a)).1 := by
+  obtain ⟨hm, hst, hcp, hfp⟩ := idle_facts h hc
+  have h1 := inv_setArg h hm a
+  unfold callGo
+  split
+  · rename_i hf
+    exact inv_post_nomore h1 (by simpa [inSync_eq] using hns) (by simpa using hf)
+  · rename_i hf
+    unfold futRes
+    exact inv_arm_fut h hal hc hns (by simpa using hf) a
+
+theorem inv_stepCall {s : State} (h : Inv s) (a : Nat) : Inv (stepCall s a).1 := by
+  unfold stepCall
+  split
+  · exact h
+  · split
+    · exact h
+    · split
+      · exact h
+      · rename_i h1 h2 h3
+        exact inv_callGo h (by simpa using h1) (by simpa using h3) (by simpa using h2) a
+
+theorem inv_stepFutWait {s : State} (h : Inv s) : Inv (stepFutWait s).1 := by
+  unfold stepFutWait
+  repeat (first | exact h | split)
+
+theorem inv_stepFutGet {s : State} (h : Inv s) : Inv (stepFutGet s).1 := by
+  unfold stepFutGet
+  repeat (first | exact h | split)
+
+theorem inv_stepFutRead {s : State} (h : Inv s) (r : Reader) : Inv (stepFutRead s r).1 := by
+  unfold stepFutRead
+  split
+  · exact h
+  · split
+    · exact h
+    · rename_i hp
+      split
+      · exact h
+      · inv_cases h
+        inv_close
+    · exact inv_evs h _
+
+set_option maxHeartbeats 800000 in
+theorem inv_stepComplete {s : State} (h : Inv s) (k : Nat) : Inv (stepComplete s k).1 := by
+  unfold stepComplete
+  split
+  · exact h
+  · rename_i hk
+    split
+    · rename_i hb
+      have hb' : s.alive = true ∧ s.bst = .await k := by simpa using hb
+      apply inv_resumeBody
+      · inv_cases h
+        inv_close
+      · exact Or.inr (Or.inr ⟨k, hb'.2⟩)
+    · rename_i hb
+      have hb' : s.alive = true → ¬ s.bst = .await k := by simpa using hb
+      have hld := h.live_dead
+      inv_cases h
+      constructor <;> simp_all [pend_eq, inSync_eq, midAccess_eq]
+      all_goals first | assumption | grind [midB]
+
+theorem inv_stepDestroy {s : State} (h : Inv s) : Inv (stepDestroy s).1 := by
+  unfold stepDestroy
+  split
+  · exact h
+  · split
+    · exact h
+    · split
+      · exact h
+      · have hgl : ∀ g, (s.dtors ++ s.live).count g + ([] : List Nat).count g = if g < s.made then 1 else 0 := by
+          intro g; have := h.guards g; simpa [List.count_append] using this
+        rename_i h1 h2 h3
+        have hal : s.alive = true := by simpa using h1
+        have hns : inSync s = false := by simpa using h2
+        have hif : inflight s = false := by simpa using h3
+        cases hb : s.bst with
+        | await k => exact h
+        | run => exact h
+        | init =>
+            dsimp only
+            inv_cases h
+            constructor
+            case guards => exact hgl
+            all_goals (clear hgl; simp_all [pend_eq, inSync_eq, midAccess_eq] <;> first | assumption | grind)
+        | yield =>
+            dsimp only
+            inv_cases h
+            constructor
+            case guards => exact hgl
+            all_goals (clear hgl; simp_all [pend_eq, inSync_eq, midAccess_eq] <;> first | assumption | grind)
+        | final =>
+            dsimp only
+            inv_cases h
+            constructor
+            case guards => exact hgl
+            all_goals (clear hgl; simp_all [pend_eq, inSync_eq, midAccess_eq] <;> first | assumption | grind)
+
+theorem inv_stepItBegin {s : State} (h : Inv s) : Inv (stepItBegin s).1 := by
+  unfold stepItBegin
+  split
+  · exact h
+  · split
+    · exact h
+    · split
+      · exact h
+      · rename_i h1 h2 h3
+        split
+        · exact h
+        · exact inv_syncGo h (by simpa using h1) (by simpa using h3) (by simpa using h2) _ _
+
+theorem inv_stepItInc {s : State} (h : Inv s) : Inv (stepItInc s).1 := by
+  unfold stepItInc
+  split
+  · exact h
+  · split
+    · exact h
+    · split
+      · exact h
+      · rename_i h1 h2 h3
+        split
+        · exact h
+        · split
+          · exact h
+          · exact inv_syncGo h (by simpa using h1) (by simpa using h3) (by simpa using h2) _ _
+
+theorem inv_stepItPostInc {s : State} (h : Inv s) : Inv (stepItPostInc s).1 := by
+  unfold stepItPostInc
+  split
+  · exact h
+  · split
+    · exact h
+    · split
+      · exact h
+      · rename_i h1 h2 h3
+        split
+        · exact h
+        · split
+          · exact h
+          · split
+            · exact inv_syncGo h (by simpa using h1) (by simpa using h3) (by simpa using h2) _ _
+            · exact h
+
+theorem inv_stepItDeref {s : State} (h : Inv s) : Inv (stepItDeref s).1 := by
+  unfold stepItDeref
+  repeat (first | exact h | exact inv_stepValue h | split)
+
+theorem inv_stepItIsEnd {s : State} (h : Inv s) : Inv (stepItIsEnd s).1 := by
+  unfold stepItIsEnd
+  repeat (first | exact h | split)
+
+theorem inv_step {s : State} (h : Inv s) (op : Op) : Inv (step s op).1 := by
+  cases op with
+  | syncBegin a => exact inv_stepSyncBegin h _ a
+  | syncEnd => exact inv_stepSyncEnd h
+  | value => exact inv_stepValue h
+  | anext a => exact inv_stepAnext h a
+  | call a => exact inv_stepCall h a
+  | futWait => exact inv_stepFutWait h
+  | futGet => exact inv_stepFutGet h
+  | futAwait => exact inv_stepFutRead h _
+  | futHas => exact inv_stepFutRead h _
+  | itBegin => exact inv_stepItBegin h
+  | itInc => exact inv_stepItInc h
+  | itDeref => exact inv_stepItDeref h
+  | itIsEnd => exact inv_stepItIsEnd h
+  | itPostInc => exact inv_stepItPostInc h
+  | itDrop => exact inv_it h none
+  | complete k => exact inv_stepComplete h k
+  | destroy => exact inv_stepDestroy h
+
+/-- the invariant holds after every operation list — induction over the list -/
+theorem inv_run (s : State) (ops : List Op) (h : Inv s) : Inv (run s ops) := by
+  induction ops generalizing s with
+  | nil => exact h
+  | cons op rest ih => exact ih _ (inv_step h op)
+
+/-! ### what never changes: the whole script and the generator's type -/
+def konst (s : State) : List Act × Bool := (s.script0, s.mode)
+
+@[simp] theorem konst_wakeReader (s : State) (i : Item) : konst (wakeReader s i) = konst s := by
+  unfold wakeReader; split <;> rfl
+@[simp] theorem konst_unblockFuture (s : State) : konst (unblockFuture s) = konst s := by
+  unfold unblockFuture; split
+  · split
+    · rfl
+    · rw [konst_wakeReader]; rfl
+  · rfl
+@[simp] theorem konst_deliver (s : State) : konst (deliver s) = konst s := by
+  unfold deliver; split
+  · rfl
+  · split
+    · rfl
+    · rfl
+    · rw [konst_unblockFuture]; rfl
+  · rfl
+@[simp] theorem konst_finish (s : State) (b : Bool) : konst (finish s b) = konst s := by
+  unfold finish; rw [konst_deliver]; rfl
+@[simp] theorem konst_yieldAt (s : State) (v : Nat) : konst (yieldAt s v) = konst s := by
+  unfold yieldAt; rw [konst_deliver]; rfl
+@[simp] theorem konst_recvArg (s : State) : konst (recvArg s) = konst s := by
+  unfold recvArg; split
+  · split <;> rfl
+  · rfl
+theorem konst_exec : ∀ (sc : List Act) (s : State), konst (exec sc s) = konst s
+  | [], s => by unfold exec; simp
+  | .yield v :: rest, s => by unfold exec; rw [konst_yieldAt]; rfl
+  | .yieldNull :: rest, s => by unfold exec; rw [konst_exec, konst_recvArg]; rfl
+  | .awaitReady :: rest, s => by unfold exec; rw [konst_exec]; rfl
+  | .await k :: rest, s => by
+      unfold exec; split
+      · rw [konst_exec]; rfl
+      · rfl
+  | .guard :: rest, s => by unfold exec; rw [konst_exec]; rfl
+  | .throw :: rest, s => by unfold exec; simp
+  | .ret :: rest, s => by unfold exec; simp
+@[simp] theorem konst_resumeBody (s : State) : konst (resumeBody s) = konst s := by
+  unfold resumeBody; split
+  · rw [konst_exec]; rfl
+  · rw [konst_exec, konst_recvArg]; rfl
+  · rw [konst_exec]; rfl
+  · rfl
+@[simp] theorem konst_setArg (s : State) (a : Nat) : konst (setArg s a) = konst s := by
+  unfold setArg; split <;> rfl
+@[simp] theorem konst_endSync (s : State) (k : SyncKind) (b : Bool) : konst (endSync s k b).1 = konst s := by
+  unfold endSync; cases k <;> rfl
+@[simp] theorem konst_syncGo (s : State) (k : SyncKind) : konst (syncGo s k).1 = konst s := by
+  unfold syncGo; split
+  · rw [konst_endSync]; rfl
+  · split
+    · rfl
+    · dsimp only; rw [konst_resumeBody]; rfl
+theorem konst_step (s : State) (op : Op) : konst (step s op).1 = konst s := by
+  cases op <;> simp only [step]
+  case syncBegin a => unfold stepSyncBegin; repeat (first | rfl | (rw [konst_syncGo, konst_setArg]) | split)
+  case syncEnd => unfold stepSyncEnd; repeat (first | rfl | (rw [konst_endSync]; rfl) | split)
+  case value => unfold stepValue; repeat (first | rfl | split)
+  case anext a =>
+    unfold stepAnext anextGo
+    repeat (first | rfl | (dsimp only; rw [konst_resumeBody]; exact konst_setArg _ _) | exact konst_setArg _ _ | split)
+  case call a =>
+    unfold stepCall callGo futRes
+    repeat (first | rfl | (dsimp only; rw [konst_resumeBody]; exact konst_setArg _ _) | exact konst_setArg _ _ | split)
+  case futWait => unfold stepFutWait; repeat (first | rfl | split)
+  case futGet => unfold stepFutGet; repeat (first | rfl | split)
+  case futAwait => unfold stepFutRead; repeat (first | rfl | split)
+  case futHas => unfold stepFutRead; repeat (first | rfl | split)
+  case itBegin => unfold stepItBegin; repeat (first | rfl | (rw [konst_syncGo, konst_setArg]) | split)
+  case itInc => unfold stepItInc; repeat (first | rfl | (rw [konst_syncGo, konst_setArg]) | split)
+  case itDeref => unfold stepItDeref stepValue; repeat (first | rfl | split)
+  case itIsEnd => unfold stepItIsEnd; repeat (first | rfl | split)
+  case itPostInc => unfold stepItPostInc; repeat (first | rfl | (rw [konst_syncGo, konst_setArg]) | split)
+  case itDrop => rfl
+  case complete k => unfold stepComplete; repeat (first | rfl | (dsimp only; rw [konst_resumeBody]; rfl) | split)
+  case destroy => unfold stepDestroy; repeat (first | rfl | split)
+
+theorem konst_run (s : State) (ops : List Op) : konst (run s ops) = konst s := by
+  induction ops generalizing s with
+  | nil => rfl
+  | cons op rest ih => exact (ih _).trans (konst_step s op)
+
+/-! ### where the body stands after it has run -/
+def pos (s : State) : BSt × List Act := (s.bst, s.script)
+
+@[simp] theorem pos_wakeReader (s : State) (i : Item) : pos (wakeReader s i) = pos s := by
+  unfold wakeReader; split <;> rfl
+@[simp] theorem pos_unblockFuture (s : State) : pos (unblockFuture s) = pos s := by
+  unfold unblockFuture; split
+  · split
+    · rfl
+    · rw [pos_wakeReader]; rfl
+  · rfl
+@[simp] theorem pos_deliver (s : State) : pos (deliver s) = pos s := by
+  unfold deliver; split
+  · rfl
+  · split
+    · rfl
+    · rfl
+    · rw [pos_unblockFuture]; rfl
+  · rfl
+theorem pos_finish (s : State) (b : Bool) : pos (finish s b) = (.final, []) := by
+  unfold finish; rw [pos_deliver]; rfl
+theorem pos_yieldAt (s : State) (v : Nat) : pos (yieldAt s v) = (.yield, s.script) := by
+  unfold yieldAt; rw [pos_deliver]; rfl
+@[simp] theorem pos_recvArg (s : State) : pos (recvArg s) = pos s := by
+  unfold recvArg; split
+  · split <;> rfl
+  · rfl
+
+/-- after running, the body is parked at a `co_yield`, parked on an awaited operation, or finished — and unless it finished,
+the rest of its script got strictly shorter -/
+theorem exec_pos : ∀ (sc : List Act) (s : State),
+    ((exec sc s).bst = .final ∨ (exec sc s).script.length < sc.length) ∧
+    ((exec sc s).bst = .final ∨ (exec sc s).bst = .yield ∨ ∃ k, (exec sc s).bst = .await k)
+  | [], s => by
+      unfold exec; have := pos_finish s false; simp only [pos, Prod.mk.injEq] at this; simp [this.1]
+  | .yield v :: rest, s => by
+      unfold exec
+      have := pos_yieldAt { s with script := rest } v
+      simp only [pos, Prod.mk.injEq] at this; simp [this.1, this.2]
+  | .yieldNull :: rest, s => by
+      unfold exec; have := exec_pos rest (recvArg { s with script := rest })
+      refine ⟨this.1.imp id (fun h => ?_), this.2⟩; simp; omega
+  | .awaitReady :: rest, s => by
+      unfold exec; have := exec_pos rest { s with script := rest }
+      refine ⟨this.1.imp id (fun h => ?_), this.2⟩; simp; omega
+  | .await k :: rest, s => by
+      unfold exec; split
+      · have := exec_pos rest { s with script := rest }
+        refine ⟨this.1.imp id (fun h => ?_), this.2⟩; simp; omega
+      · simp
+  | .guard :: rest, s => by
+      unfold exec
+      have := exec_pos rest { s with script := rest, live := s.live ++ [s.made], made := s.made + 1 }
+      refine ⟨this.1.imp id (fun h => ?_), this.2⟩; simp; omega
+  | .throw :: rest, s => by
+      unfold exec; have := pos_finish s true; simp only [pos, Prod.mk.injEq] at this; simp [this.1]
+  | .ret :: rest, s => by
+      unfold exec; have := pos_finish s false; simp only [pos, Prod.mk.injEq] at this; simp [this.1]
+
+theorem exec_not_run (sc : List Act) (s : State) : (exec sc s).bst ≠ .run := by
+  rcases (exec_pos sc s).2 with h | h | ⟨k, h⟩ <;> simp [h]
+
+theorem resumeBody_not_run (s : State) (h : s.bst ≠ .run) : (resumeBody s).bst ≠ .run := by
+  unfold resumeBody; split
+  · exact exec_not_run _ _
+  · exact exec_not_run _ _
+  · exact exec_not_run _ _
+  · exact h
+
+@[simp] theorem endSync_bst (s : State) (k : SyncKind) (b : Bool) : (endSync s k b).1.bst = s.bst := by
+  unfold endSync; cases k <;> rfl
+
+theorem syncGo_not_run (s : State) (k : SyncKind) (h : s.bst ≠ .run) : (syncGo s k).1.bst ≠ .run := by
+  unfold syncGo; split
+  · simpa using h
+  · split
+    · exact h
+    · exact resumeBody_not_run _ h
+
+/-- `run` is only an intermediate position inside one operation -/
+theorem step_not_run (s : State) (op : Op) (h : s.bst ≠ .run) : (step s op).1.bst ≠ .run := by
+  have hs : ∀ a, (setArg s a).bst ≠ .run := fun a => by simpa using h
+  cases op <;> simp only [step]
+  case syncBegin a => unfold stepSyncBegin; repeat (first | exact h | exact syncGo_not_run _ _ (hs _) | split)
+  case syncEnd => unfold stepSyncEnd; repeat (first | exact h | (simpa using h) | split)
+  case value => unfold stepValue; repeat (first | exact h | split)
+  case anext a =>
+    unfold stepAnext anextGo
+    repeat (first | exact h | exact hs _ | exact resumeBody_not_run _ (hs _) | split)
+  case call a =>
+    unfold stepCall callGo futRes
+    repeat (first | exact h | exact hs _ | exact resumeBody_not_run _ (hs _) | split)
+  case futWait => unfold stepFutWait; repeat (first | exact h | split)
+  case futGet => unfold stepFutGet; repeat (first | exact h | split)
+  case futAwait => unfold stepFutRead; repeat (first | exact h | split)
+  case futHas => unfold stepFutRead; repeat (first | exact h | split)
+  case itBegin => unfold stepItBegin; repeat (first | exact h | exact syncGo_not_run _ _ (hs _) | split)
+  case itInc => unfold stepItInc; repeat (first | exact h | exact syncGo_not_run _ _ (hs _) | split)
+  case itDeref => unfold stepItDeref stepValue; repeat (first | exact h | split)
+  case itIsEnd => unfold stepItIsEnd; repeat (first | exact h | split)
+  case itPostInc => unfold stepItPostInc; repeat (first | exact h | exact syncGo_not_run _ _ (hs _) | split)
+  case itDrop => exact h
+  case complete k => unfold stepComplete; repeat (first | exact h | exact resumeBody_not_run _ h | split)
+  case destroy => unfold stepDestroy; repeat (first | exact h | split)
+
+theorem run_not_run (s : State) (ops : List Op) (h : s.bst ≠ .run) : (run s ops).bst ≠ .run := by
+  induction ops generalizing s with
+  | nil => exact h
+  | cons op rest ih => exact ih _ (step_not_run s op h)
+
 
 end Cocls.Gen
